@@ -191,8 +191,8 @@ def main():
         if fl == "asan":
             env["ASAN_OPTIONS"] = "detect_leaks=0:exitcode=97"
         p = subprocess.run([binary(fl), "replay", os.path.abspath(replay)], env=env)
-        if p.returncode < 0:
-            print("replay: the process was killed by signal %d" % -p.returncode)
+        if p.returncode < 0 or p.returncode == 97:
+            print("replay: the process was killed (signal / sanitizer report): return code %d" % p.returncode)
             print("VIOLATION property=%s replay=%s" % (pid, os.path.abspath(replay)))
             sys.exit(1)
         sys.exit(p.returncode if p.returncode in (0, 1) else 2)
@@ -230,13 +230,19 @@ def main():
         j = r["job"]
         label = j["build"] + ("" if not j["params"] else "[" + ",".join("%s=%s" % kv for kv in sorted(j["params"].items())) + "]")
         cur = os.path.join(outdir, "job%03d.json.current" % results.index(r))
-        if rep is None and r["rc"] < 0 and r["rc"] != -999 and os.path.exists(cur):
+        if rep is None and (r["rc"] < 0 or r["rc"] == 97) and r["rc"] != -999 and os.path.exists(cur):
             # the worker process was killed by a signal (abort, segfault) while executing a case:
             # the library took the whole process down; the case in flight is the counterexample
             try:
                 doc = json.load(open(cur))
-                doc["signature"] = "worker-killed-by-signal-%d" % (-r["rc"])
-                doc["detail"] = "the process executing this case was killed by signal %d; stderr tail: %s" % (-r["rc"], r["stderr"][-600:])
+                if r["rc"] == 97:
+                    doc["signature"] = "address-sanitizer-report"
+                    rep_txt = r["stderr"]
+                    k = rep_txt.find("ERROR: AddressSanitizer")
+                    doc["detail"] = "AddressSanitizer stopped the process executing this case: %s" % (rep_txt[k:k + 1500] if k >= 0 else rep_txt[-1200:])
+                else:
+                    doc["signature"] = "worker-killed-by-signal-%d" % (-r["rc"])
+                    doc["detail"] = "the process executing this case was killed by signal %d; stderr tail: %s" % (-r["rc"], r["stderr"][-600:])
                 path = os.path.join(REPLAYS, "%s-%s-killed-%d-%d.json" % (pid, j["build"], os.getpid(), results.index(r)))
                 json.dump(doc, open(path, "w"), indent=1)
                 violations.append(dict(signature=doc["signature"], detail=doc["detail"], replay=path, build=label))
